@@ -39,8 +39,10 @@
 //! close / after it / after the failure was queued / after the partial handling (optionally crashing twice).  Op line
 //!   evlife (close | timeout | h<k> | persist | crash)* -> part=0/1 queue=<P|F[*],..> resolved=0/1 handledT=0/1      (Restart.erun, single payment)
 //! Oracle: a PaymentFailed the handler never accepted before the crash is delivered after the restart.  VERIF_C10_EVT="n_pay:closer_t:k:mgr_pt:second".
-//! KF-C10-6: oracle in the world loop (the read fails back an HTLC that the monitor copy of a channel closed as OutdatedChannelManager still lists
-//! as pending) and `kf6_probe`, the end-to-end reproduction (the downstream peer claims on chain after the upstream HTLC was failed).
+//! Repaired KF-C10-6 (HARD oracles): in the world loop the read must never fail back an HTLC that the monitor copy of a channel closed as
+//! OutdatedChannelManager still lists as pending; `kf6_probe` runs the scenario end to end (forwarded HTLC / own payment in the stale manager's
+//! holding cell, committed afterwards): nothing is failed at the restart, and after the downstream peer's on-chain claim the node learns the
+//! preimage from its monitor (PaymentForwarded + upstream balance credited + PaymentSent at the payer / PaymentSent, no PaymentFailed).
 //! After the restart(s) the application retries the claim / fail-back decisions it took before the crash (as
 //! the claim_funds documentation requires), peers are reconnected and everything is delivered until quiet.
 //!
@@ -353,7 +355,7 @@ fn judge(rec: &mut Rec, anoms: &mut Vec<String>, not_judged: bool, text: String)
 
 const KF5_TEXT: &str = "KF-C10-5 startup hands a released blocked ChannelMonitorUpdate to chain::Watch before the replay of an earlier in-flight update of the same channel: the MonitorUpdatesComplete background event of ANOTHER channel (all of its in-flight updates are already in its monitor) runs a completion action that releases the blocked update while the channel's own MonitorUpdateRegeneratedOnStartup is still queued (background-event order follows per_peer_state hash order, so it happens on some restarts only); ChannelMonitor::update_monitor panics 'Attempted to apply ChannelMonitorUpdates out of order' and the node cannot start";
 
-const KF6_TEXT: &str = "KF-C10-6 an HTLC in the holding cell of a stale ChannelManager's channel (closed as OutdatedChannelManager) is failed back without consulting the ChannelMonitor (dropped_outbound_htlcs), although the newer monitor lists the same HTLC as committed to the counterparty and unresolved: the counterparty can still claim it on chain after the upstream HTLC was failed (forwarder loses the amount) / after PaymentFailed was reported";
+const KF6_TEXT: &str = "stale-manager fail-back of a LIVE HTLC (what KF-C10-6 was before its repair; must never happen again): the read fails back (reason ChannelClosed) an HTLC of a channel it closes as OutdatedChannelManager although that channel's newer ChannelMonitor lists the same HTLC as committed to the counterparty and unresolved: the counterparty can still claim it on chain after the upstream HTLC was failed (forwarder loses the amount) / after PaymentFailed was reported";
 
 /// Re-runs the scenario of world `w` in a fresh Net and restarts t a dozen times from the world's bytes with an ASYNCHRONOUS persister
 /// (same reload path): Some(panic text, k of n) if any of the restarts panics, None if the node starts every time.
@@ -457,13 +459,14 @@ fn main() {
 	let args = &parse_args("c10");
 	silence_stdout();
 	let mut rec = Rec::new(&args.out, &args.model);
+	let probes_only = std::env::var("VERIF_C10_PROBES_ONLY").is_ok();
 	let mut rng = Rng::new(args.seed);
 	let trace_on = std::env::var("VERIF_TRACE").is_ok();
 	let n_scen = if args.thorough { 22 } else { 11 } * args.scale as usize;
-	let n_scen = if std::env::var("VERIF_C10_ONLY_CHAIN").is_ok() { 0 } else { n_scen };
+	let n_scen = if std::env::var("VERIF_C10_ONLY_CHAIN").is_ok() || probes_only { 0 } else { n_scen };
 	let worlds_per_scen = if args.thorough { 200 } else { 70 }; // a leaked Net per world: memory bounds the thorough tier
 	let mut n_worlds = 0u64; let mut n_adm = 0u64; let mut n_closed = 0u64; let mut n_replay = 0u64; let mut n_second = 0u64; let mut n_settled = 0u64;
-	let mut nondet = 0u64; let mut late_panics = 0u64; let mut n_recon = 0u64; let n_pre_pts = 0u64; let mut n_pre_kept = 0u64;
+	let mut nondet = 0u64; let mut late_panics = 0u64; let mut n_recon = 0u64; let (mut n_live_failed, mut n_dropped_listed, mut n_dropped_forgotten) = (0u64, 0u64, 0u64); let n_pre_pts = 0u64; let mut n_pre_kept = 0u64;
 	let mut kf_counts: BTreeMap<String, u64> = BTreeMap::new();
 	let mut anoms: Vec<String> = vec![]; let mut persister_switch = 0u64;
 	for sc in 0..n_scen {
@@ -694,19 +697,27 @@ fn main() {
 					rec.case(&op2, &ans, &format!("recon:{}{}{}", if any_cl { "claims" } else { "no-claim" }, if any_fl { "+fails" } else { "" }, if chans.iter().any(|c| c.0) { "+stale-closed" } else { "" }), any_cl || any_fl || !post_pays.is_empty());
 					if trace_on { eprintln!("    {} => {}", op2, ans); }
 				} else { rec.discarded += 1; if trace_on { eprintln!("    recon NOT COVERED pays_q={:?} post={:?} ex={:?} chan={:?} keys={:?}/{:?}", q0.pays, post_pays, ex, q0.extras.iter().map(|e| &e.chan_htlcs).collect::<Vec<_>>(), keys.pays, keys.privs); } }
-				// KF-C10-6 (implementation-side, independent of the Lean model): the read fails an HTLC back (reason ChannelClosed) although the
-				// monitor copy of a channel it closes as OutdatedChannelManager still lists the very same HTLC source as an outbound HTLC of the
-				// counterparty's commitment(s), without preimage and not replayed as a claim — the counterparty can still claim it on chain
+				// HARD oracle (implementation-side, independent of the Lean model; this was KF-C10-6 until /repo's fix of from_channel_manager_data):
+				// the read must not fail an HTLC back (reason ChannelClosed) while the monitor copy of a channel it closes as OutdatedChannelManager
+				// still lists the very same HTLC source as an outbound HTLC of the counterparty's commitment(s), without preimage and not replayed
+				// as a claim — the counterparty could still claim it on chain.  Any hit is a VIOLATION (at most 4 are listed).
 				for l in decisions.iter().filter(|l| l.starts_with("fail ") && l.ends_with("reason=ChannelClosed")) {
 					let key = l.split(' ').nth(1).unwrap_or("");
 					let claimed = decisions.iter().any(|c| c.starts_with("claim ") && c.split(' ').nth(1) == Some(key));
 					for k in 0..my.len() { if chans[k].0 && !claimed && ex[k].mon_htlcs.iter().any(|m| m.split(' ').next() == Some(key) && m.ends_with("preimage=0")) {
-						kf_fail(&mut rec, &mut kf_counts, format!("{} :: {} [{}] :: channel {} is closed as OutdatedChannelManager, its monitor copy (update id {}) lists {} as a pending outbound HTLC (no preimage), the manager copy (update id {}) has it in the holding cell / as a blocked LocalAnnounced HTLC ({}) and the read decides `{}`{}",
+						n_live_failed += 1;
+						if n_live_failed <= 4 { rec.oracle_fail(format!("{} :: {} [{}] :: channel {} is closed as OutdatedChannelManager, its monitor copy (update id {}) lists {} as a pending outbound HTLC (no preimage), the manager copy (update id {}) has it in the holding cell / as a blocked LocalAnnounced HTLC ({}) and the read decides `{}`{}",
 							KF6_TEXT, tag, op, my[k].0, mv[k].mon_id, keys.src(key).unwrap_or(key.to_string()), qv[k].chan.map(|c| c[0]).unwrap_or(0),
 							wpts[w.q].extras[k].chan_htlcs.iter().find(|h| h.split(' ').next() == Some(key)).map(|h| h.split(' ').last().unwrap_or("")).unwrap_or("not listed"), l.split(' ').filter(|x| !x.starts_with("hash=")).collect::<Vec<_>>().join(" "),
-							if key.starts_with("route:") { " (own payment: PaymentFailed is generated)" } else { " (forwarded HTLC: update_fail_htlc goes upstream)" }));
+							if key.starts_with("route:") { " (own payment: PaymentFailed is generated)" } else { " (forwarded HTLC: update_fail_htlc goes upstream)" })); }
 					} }
 				}
+				// the situation the repair is about, counted: force_shutdown DROPPED an HTLC (holding-cell add / blocked LocalAnnounced) of a channel closed
+				// as OutdatedChannelManager and the newer monitor copy lists it (=> it must be left to the monitor) / does not list it (=> failed back)
+				for k in 0..my.len() { if chans[k].0 { for h in wpts[w.q].extras[k].chan_htlcs.iter().filter(|h| !h.ends_with("kind=pending")) {
+					let key = h.split(' ').next().unwrap_or("");
+					if ex[k].mon_htlcs.iter().any(|m| m.split(' ').next() == Some(key)) { n_dropped_listed += 1; } else { n_dropped_forgotten += 1; }
+				} } }
 				// wake-up events of every RESUMED channel
 				for &k in &open_q { if !chans[k].0 {
 					let c = qv[k].chan.unwrap(); let hexid = format!("{}", my[k].2);
@@ -893,18 +904,23 @@ fn main() {
 	rec.notes.insert("known_findings_hit".into(), format!("{:?} (every occurrence counted; at most 4 per finding are listed)", kf_counts));
 	rec.notes.insert("reconstruct_path_anomalies".into(), format!("{} (not judged; first: {:?})", anoms.len(), anoms.iter().take(3).map(|a| a.chars().take(260).collect::<String>()).collect::<Vec<_>>()));
 	rec.notes.insert("discarded_persister_mode_switch".into(), format!("{} worlds: the startup background events panic ('Watch::update_channel returned Completed while prior updates are still InProgress' / 'Attempted to apply ChannelMonitorUpdates out of order') only because the sim restarts the asynchronously persisting node with a synchronous persister; each was re-run and restarted 12 times with an asynchronous persister without a panic", persister_switch));
-	let (n_chain, chain_setup_errs) = chain_family(&mut rec, args);
+	let (n_chain, chain_setup_errs) = if probes_only { (0, 0) } else { chain_family(&mut rec, args) };
 	rec.notes.insert("onchain_worlds".into(), format!("{} worlds with a channel closed on chain before the crash (payer / forwarder; commitment of either side, 0..ANTI_REORG_DELAY+2 blocks deep; PRESENT / DUST / ABSENT outbound HTLCs; manager written at the crash / before the blocks / before the close; optional shallow reorg to the counterparty's other commitment); {} could not be set up", n_chain, chain_setup_errs));
 	{
-		let (n_evt, evt_errs, pat) = evt_family(&mut rec, args);
+		let (n_evt, evt_errs, pat) = if probes_only { (0, 0, 0) } else { evt_family(&mut rec, args) };
 		rec.notes.insert("event_redelivery_worlds".into(), format!("{} worlds (1-2 payments over a channel closed on chain by either commitment, HTLC timeouts buried; the event handler accepts a prefix of 0..all pending events and replays the rest; restart from the manager written before the close / after it / after the failure was queued / after the partial handling, optionally crashing twice); {} could not be set up; in {} payments the restarted (older) manager keeps the payment pending although PaymentFailed had been handled before the crash (observation, not judged: the terminal event was delivered)", n_evt, evt_errs, pat));
 	}
-	match guarded(AssertUnwindSafe(|| kf6_probe(args.seed ^ 0x6F6))) {
-		Ok(Ok((text, Some(loss)))) => { *kf_counts.entry("KF-C10-6".to_string()).or_insert(0) += 1; rec.oracle_fail(format!("{} :: END-TO-END probe: {} :: {}", KF6_TEXT, loss, text)); rec.notes.insert("kf6_probe".into(), format!("loss reproduced: {}", text)); },
-		Ok(Ok((text, None))) => { rec.notes.insert("kf6_probe".into(), format!("no loss: {}", text)); },
-		Ok(Err(e)) => { rec.notes.insert("kf6_probe".into(), format!("could not be set up: {}", e)); },
-		Err(p) => { rec.notes.insert("kf6_probe".into(), format!("panicked: {}", p.chars().take(300).collect::<String>())); },
+	// end-to-end probes of the repaired stale-manager holding-cell fail-back (HARD oracles): forwarded HTLC and own payment
+	for (own, by_timeout, name) in [(false, false, "kf6_probe"), (true, false, "kf6_probe_own_payment"), (false, true, "kf6_probe_timeout"), (true, true, "kf6_probe_own_payment_timeout")] {
+		let what = format!("{}, {}", if own { "own payment of the restarted node" } else { "forwarded HTLC" }, if by_timeout { "never claimed: resolved by the on-chain timeout" } else { "claimed on chain by the recipient" });
+		match guarded(AssertUnwindSafe(|| kf6_probe(args.seed ^ 0x6F6 ^ (own as u64) ^ ((by_timeout as u64) << 1), own, by_timeout))) {
+			Ok(Ok((text, Some(bad)))) => { rec.oracle_fail(format!("{} :: END-TO-END probe ({}): {} :: {}", if bad.contains("failed back at the restart") { KF6_TEXT } else { "an HTLC of the stale manager's holding cell that was left to the ChannelMonitor is not resolved truthfully" }, what, bad, text)); rec.notes.insert(name.into(), format!("VIOLATED: {} :: {}", bad, text)); },
+			Ok(Ok((text, None))) => { rec.notes.insert(name.into(), format!("held: {}", text)); },
+			Ok(Err(e)) => { rec.notes.insert(name.into(), format!("could not be set up: {}", e)); },
+			Err(p) => { rec.oracle_fail(format!("END-TO-END probe of a stale manager with an HTLC in the holding cell ({}): the real code panicked: {}", what, p.chars().take(300).collect::<String>())); rec.notes.insert(name.into(), format!("panicked: {}", p.chars().take(300).collect::<String>())); },
+		}
 	}
+	rec.notes.insert("stale_dropped_htlcs".into(), format!("HTLCs dropped by force_shutdown from a channel closed as OutdatedChannelManager over all production-path worlds: {} listed by the newer monitor copy (must be left to the monitor), {} not listed (failed back); fail decisions ChannelClosed for an HTLC the closed channel's monitor still lists as pending: {} (each is a VIOLATION)", n_dropped_listed, n_dropped_forgotten, n_live_failed));
 	rec.notes.insert("known_findings_hit".into(), format!("{:?} (every occurrence counted; at most 4 per finding are listed)", kf_counts));
 	rec.notes.insert("reconstruction".into(), format!("{} admissible production-path worlds read a second time without side effects: pending_claims_to_replay / failed_htlcs (hook STARTUP_DECISIONS), pending_outbound_payments, generated PaymentSent / PaymentFailed and the background events of every resumed channel compared with Restart.claims / fails / paysAfter / bgEvents before any message is exchanged", n_recon));
 	rec.notes.insert("preimage_worlds".into(), format!("{} worlds kept by the directed stratum \"a monitor copy holds the preimage of a forwarded HTLC\" (scripted claim prefix of the line scenarios with flavor 3){}", n_pre_kept, if n_pre_pts > 0 { "" } else { "" }));
@@ -1212,16 +1228,19 @@ fn evt_family(rec: &mut Rec, args: &Args) -> (u64, u64, u64) {
 }
 
 // =====================================================================================================================
-// KF-C10-6 end to end: the forwarder fails the upstream HTLC on restart, the downstream peer then claims the HTLC on chain
+// Repaired KF-C10-6 end to end: an HTLC of the stale manager's holding cell that the newer monitor lists is left to the monitor
 // =====================================================================================================================
 /// Line 0 -c0- 1 -c1- 2 (legacy channels), node under test t = 1.  (1) t pays node 2 itself; node 2's revoke_and_ack is held back, so c1
-/// awaits it.  (2) node 0 pays node 2 through t: the HTLC is irrevocably committed on c0 and t's forward lands in c1's HOLDING CELL.
-/// (3) the ChannelManager is written (the copy that will be reloaded).  (4) node 2's revoke_and_ack arrives: the holding cell is freed,
-/// the forward is committed on c1 (monitor updates durable) and becomes claimable at node 2; nothing happens on c0.  (5) crash; restart
-/// from the manager of (3) and the current monitors: c0 is resumed, c1 is closed as OutdatedChannelManager.  (6) peers reconnect,
-/// everything is delivered.  (7) node 2 claims; t's commitment (broadcast by the close) and node 2's preimage claim confirm and are buried.
-/// Returns a description of what happened; `Some(loss)` when t failed the HTLC upstream AND node 2 collected it downstream.
-fn kf6_probe(seed: u64) -> Result<(String, Option<String>), String> {
+/// awaits it.  (2) `own` = false: node 0 pays node 2 through t: the HTLC is irrevocably committed on c0 and t's forward lands in c1's
+/// HOLDING CELL; `own` = true: t sends a second payment of its own to node 2, which lands in c1's holding cell.  (3) the ChannelManager
+/// is written (the copy that will be reloaded).  (4) node 2's revoke_and_ack arrives: the holding cell is freed, the HTLC is committed on
+/// c1 (monitor updates durable) and becomes claimable at node 2; nothing happens on c0.  (5) crash; restart from the manager of (3) and the
+/// current monitors: c0 is resumed, c1 is closed as OutdatedChannelManager.  (6) peers reconnect, everything is delivered: NOTHING may be
+/// failed (no update_fail_htlc upstream / no PaymentFailed), the HTLC stays committed on c0.  (7) node 2 claims; t's commitment (broadcast
+/// by the close) and node 2's preimage claim confirm and are buried: t learns the preimage from its monitor and claims upstream
+/// (PaymentForwarded, balance on c0 credited, PaymentSent at node 0) / generates PaymentSent for its own payment.
+/// Returns a description of what happened; `Some(what)` when one of these expectations failed.
+fn kf6_probe(seed: u64, own: bool, by_timeout: bool) -> Result<(String, Option<String>), String> {
 	use lightning::chain::channelmonitor::ANTI_REORG_DELAY;
 	use lightning::ln::functional_test_utils::{connect_blocks, mine_transaction, test_legacy_channel_config};
 	let mut rng = Rng::new(seed);
@@ -1235,11 +1254,14 @@ fn kf6_probe(seed: u64) -> Result<(String, Option<String>), String> {
 	for _ in 0..2 { net.deliver(1, 2).ok_or("1>2 message missing")?; }
 	// (2)
 	let amt_b = 5_000_000 + rng.below(20_000_000);
-	let pb = net.send(&[0, 1, 2], &[0, 1], amt_b, 70)?;
-	for _ in 0..30 { if net.queued(0, 1) > 0 { net.deliver(0, 1); } else if net.queued(1, 0) > 0 { net.deliver(1, 0); } else { break; } }
-	for _ in 0..3 { if net.nodes[t].node.needs_pending_htlc_processing() { net.forward(t); } }
+	let pb = if own { net.send(&[1, 2], &[1], amt_b, 70)? } else { net.send(&[0, 1, 2], &[0, 1], amt_b, 70)? };
+	if !own {
+		for _ in 0..30 { if net.queued(0, 1) > 0 { net.deliver(0, 1); } else if net.queued(1, 0) > 0 { net.deliver(1, 0); } else { break; } }
+		for _ in 0..3 { if net.nodes[t].node.needs_pending_htlc_processing() { net.forward(t); } }
+	}
 	let held = vh::channel_outbound_htlc_sources(net.nodes[t].node, &net.ids[2], &c1);
-	if !held.iter().any(|l| l.starts_with("prev:") && l.ends_with("kind=holding")) { return Err(format!("the forward did not land in the holding cell: {:?}", held)); }
+	let want = if own { "route:" } else { "prev:" };
+	if !held.iter().any(|l| l.starts_with(want) && l.ends_with("kind=holding")) { return Err(format!("the HTLC did not land in the holding cell: {:?}", held)); }
 	// (3)
 	let mgr = net.nodes[t].node.encode();
 	let c0_nums = vh::channel_restart_numbers(net.nodes[t].node, &net.ids[0], &c0);
@@ -1248,12 +1270,13 @@ fn kf6_probe(seed: u64) -> Result<(String, Option<String>), String> {
 	for _ in 0..3 { if net.nodes[2].node.needs_pending_htlc_processing() { net.forward(2); } }
 	net.process_events(2);
 	let hb = net.pays[pb].hash;
-	if !net.claimable[2].iter().any(|c| c.0 == hb) { return Err("the forwarded HTLC did not become claimable at node 2".into()); }
+	if !net.claimable[2].iter().any(|c| c.0 == hb) { return Err("the HTLC did not become claimable at node 2".into()); }
 	if vh::channel_restart_numbers(net.nodes[t].node, &net.ids[0], &c0) != c0_nums { return Err("c0 moved after the manager was written".into()); }
 	// (5)
 	let mons: Vec<Vec<u8>> = vec![net.nodes[t].chain_monitor.chain_monitor.get_monitor(c0).unwrap().encode(), net.nodes[t].chain_monitor.chain_monitor.get_monitor(c1).unwrap().encode()];
 	let listed_before = vh::monitor_outbound_htlcs_dump(&net.nodes[t].chain_monitor.chain_monitor.get_monitor(c1).unwrap());
-	let ev0 = net.events[0].len();
+	let payer = if own { t } else { 0 };
+	let ev0 = net.events[payer].len();
 	net.restart_from(t, &mgr, &mons).map_err(|e| format!("restart failed: {}", e))?;
 	net.process_events(t);
 	let closed_c1 = net.events[t].iter().any(|e| matches!(e, Event::ChannelClosed { channel_id, reason: ClosureReason::OutdatedChannelManager, .. } if *channel_id == c1));
@@ -1262,32 +1285,75 @@ fn kf6_probe(seed: u64) -> Result<(String, Option<String>), String> {
 	// (6)
 	net.reconnect(1, 0); net.reconnect(1, 2);
 	net.settle(10);
-	let upstream_failed = net.events[0][ev0..].iter().any(|e| matches!(e, Event::PaymentFailed { payment_hash: Some(h), .. } if *h == hb));
+	let failed_at_restart = net.events[payer][ev0..].iter().any(|e| matches!(e, Event::PaymentFailed { payment_hash: Some(h), .. } if *h == hb));
 	let c0_inbound_left = net.nodes[t].node.list_channels().iter().filter(|c| c.channel_id == c0).map(|c| c.pending_inbound_htlcs.len()).sum::<usize>();
-	// (7) node 2 claims; t's commitment of c1 and node 2's preimage claim confirm
-	net.claimable[2].retain(|c| c.0 != hb);
-	net.claim(pb);
+	// (7) node 2 claims (or never does: `by_timeout`); t's commitment of c1 confirms, then node 2's preimage claim / t's HTLC-timeout claims
+	if !by_timeout { net.claimable[2].retain(|c| c.0 != hb); net.claim(pb); }
 	net.settle(4);
 	let funding = net.nodes[t].chain_monitor.chain_monitor.get_monitor(c1).unwrap().get_funding_txo();
 	let commit = net.nodes[t].tx_broadcaster.txn_broadcasted.lock().unwrap().iter().find(|tx| tx.input.len() == 1 && tx.input[0].previous_output.txid == funding.txid && tx.input[0].previous_output.vout == funding.index as u32).cloned().ok_or("t did not broadcast a commitment transaction of c1")?;
 	all_nodes_blocks(&mut net, |n| { mine_transaction(n, &commit); });
 	net.settle(4);
 	let commit_txid = commit.compute_txid();
-	let claim2: Vec<bitcoin::Transaction> = net.nodes[2].tx_broadcaster.txn_broadcasted.lock().unwrap().iter().filter(|tx| tx.input.iter().any(|i| i.previous_output.txid == commit_txid)).cloned().collect();
-	let claim_tx = claim2.last().cloned().ok_or("node 2 did not broadcast a preimage claim of the HTLC output")?;
-	all_nodes_blocks(&mut net, |n| { mine_transaction(n, &claim_tx); });
-	all_nodes_blocks(&mut net, |n| { connect_blocks(n, ANTI_REORG_DELAY + 1); });
-	for _ in 0..3 { net.settle(6); }
-	let claimed_downstream = net.events[2].iter().any(|e| matches!(e, Event::PaymentClaimed { payment_hash, .. } if *payment_hash == hb));
-	let claim_spends_htlc = claim_tx.input.iter().any(|i| i.previous_output.txid == commit_txid && commit.output.get(i.previous_output.vout as usize).map(|o| o.value.to_sat() == amt_b / 1000).unwrap_or(false));
+	let (mut claimed_downstream, mut claim_spends_htlc) = (false, false);
+	if by_timeout {
+		// the HTLC expires (final_cltv_delta 70; the inbound HTLC on c0 expires 48 blocks later); t's HTLC-timeout claims confirm and are buried
+		all_nodes_blocks(&mut net, |n| { connect_blocks(n, 70 + 8); });
+		net.settle(4);
+		let bcast: Vec<bitcoin::Transaction> = net.nodes[t].tx_broadcaster.txn_broadcasted.lock().unwrap().clone();
+		let mut spent: BTreeSet<String> = BTreeSet::new(); let mut claims = vec![];
+		for tx in bcast.iter().rev() { if tx.input.iter().all(|i| i.previous_output.txid == commit_txid) && tx.input.iter().all(|i| !spent.contains(&format!("{}", i.previous_output))) {
+			for i in &tx.input { spent.insert(format!("{}", i.previous_output)); }
+			claims.push(tx.clone());
+		} }
+		if !claims.iter().any(|tx| tx.input.iter().any(|i| commit.output.get(i.previous_output.vout as usize).map(|o| o.value.to_sat() == amt_b / 1000).unwrap_or(false))) { return Err(format!("t broadcast no timeout claim of the {}-sat HTLC output ({} claims)", amt_b / 1000, claims.len())); }
+		for tx in &claims { let tx = tx.clone(); all_nodes_blocks(&mut net, move |n| { mine_transaction(n, &tx); }); }
+		all_nodes_blocks(&mut net, |n| { connect_blocks(n, ANTI_REORG_DELAY + 1); });
+		for _ in 0..3 { net.settle(6); }
+	} else {
+		let claim2: Vec<bitcoin::Transaction> = net.nodes[2].tx_broadcaster.txn_broadcasted.lock().unwrap().iter().filter(|tx| tx.input.iter().any(|i| i.previous_output.txid == commit_txid)).cloned().collect();
+		let claim_tx = claim2.last().cloned().ok_or("node 2 did not broadcast a preimage claim of the HTLC output")?;
+		all_nodes_blocks(&mut net, |n| { mine_transaction(n, &claim_tx); });
+		all_nodes_blocks(&mut net, |n| { connect_blocks(n, ANTI_REORG_DELAY + 1); });
+		for _ in 0..3 { net.settle(6); }
+		claimed_downstream = net.events[2].iter().any(|e| matches!(e, Event::PaymentClaimed { payment_hash, .. } if *payment_hash == hb));
+		claim_spends_htlc = claim_tx.input.iter().any(|i| i.previous_output.txid == commit_txid && commit.output.get(i.previous_output.vout as usize).map(|o| o.value.to_sat() == amt_b / 1000).unwrap_or(false));
+		if !claimed_downstream || !claim_spends_htlc { return Err(format!("node 2 did not collect the HTLC on chain (PaymentClaimed = {}, its claim spends the {}-sat HTLC output = {})", claimed_downstream, amt_b / 1000, claim_spends_htlc)); }
+	}
 	let forwarded_ev = net.events[t].iter().any(|e| matches!(e, Event::PaymentForwarded { .. }));
 	let v_c0_end = vh::channel_value_to_self_msat(net.nodes[t].node, &net.ids[0], &c0);
-	let payer_sent = net.events[0].iter().any(|e| matches!(e, Event::PaymentSent { payment_hash, .. } if *payment_hash == hb));
-	let text = format!("seed {}: HTLC {} ({} msat) 0→1→2; manager of node 1 written with the forward in c1's holding cell (c1 monitor then listed {:?}); after the restart c1 closed as OutdatedChannelManager, c0 resumed; payer got PaymentFailed = {}, inbound HTLCs left on c0 at node 1 = {}; node 2 PaymentClaimed = {}, its on-chain claim spends the {}-sat HTLC output of node 1's commitment = {}; node 1 PaymentForwarded = {}, payer PaymentSent = {}; node 1's balance on c0 {} → {:?} msat",
-		seed, hex(&hb.0[..4]), amt_b, listed_before.iter().map(|l| l.split(' ').filter(|x| !x.starts_with("hash=")).collect::<Vec<_>>().join(" ")).collect::<Vec<_>>(), upstream_failed, c0_inbound_left, claimed_downstream, amt_b / 1000, claim_spends_htlc, forwarded_ev, payer_sent, v_c0_start, v_c0_end);
-	let loss = upstream_failed && claimed_downstream && claim_spends_htlc && !payer_sent && v_c0_end.map(|v| v <= v_c0_start).unwrap_or(true);
+	let payer_sent = net.events[payer].iter().any(|e| matches!(e, Event::PaymentSent { payment_hash, .. } if *payment_hash == hb));
+	let payer_failed = net.events[payer].iter().any(|e| matches!(e, Event::PaymentFailed { payment_hash: Some(h), .. } if *h == hb));
+	let c0_inbound_end = net.nodes[t].node.list_channels().iter().filter(|c| c.channel_id == c0).map(|c| c.pending_inbound_htlcs.len()).sum::<usize>();
+	let c0_open = net.nodes[t].node.list_channels().iter().any(|c| c.channel_id == c0);
+	let text = format!("seed {}: HTLC {} ({} msat) {}; manager of node 1 written with the HTLC in c1's holding cell (c1 monitor then listed {:?}); after the restart c1 closed as OutdatedChannelManager, c0 resumed; payer got PaymentFailed before the on-chain resolution = {}, inbound HTLCs left on c0 at node 1 = {}; {}; node 1 PaymentForwarded = {}, payer PaymentSent = {}, payer PaymentFailed = {}; inbound HTLCs on c0 at the end = {} (c0 open = {}); node 1's balance on c0 {} → {:?} msat",
+		seed, hex(&hb.0[..4]), amt_b, if own { "1→2 (own payment of node 1)" } else { "0→1→2" }, listed_before.iter().map(|l| l.split(' ').filter(|x| !x.starts_with("hash=")).collect::<Vec<_>>().join(" ")).collect::<Vec<_>>(), failed_at_restart, c0_inbound_left,
+		if by_timeout { format!("node 2 never claims: node 1's HTLC-timeout claim of the {}-sat HTLC output confirmed and is buried", amt_b / 1000) } else { format!("node 2 PaymentClaimed = {}, its on-chain claim spends the {}-sat HTLC output of node 1's commitment = {}", claimed_downstream, amt_b / 1000, claim_spends_htlc) },
+		forwarded_ev, payer_sent, payer_failed, c0_inbound_end, c0_open, v_c0_start, v_c0_end);
+	let mut bad: Vec<String> = vec![];
+	if failed_at_restart { bad.push(format!("the HTLC was failed back at the restart although node 1's newer monitor of c1 lists it as committed (payer saw PaymentFailed){}", if by_timeout { String::new() } else { format!(", and node 2 then collected {} msat on chain", amt_b) })); }
+	if !own && c0_inbound_left != 1 { bad.push(format!("{} inbound HTLCs were left on c0 after the restart settled (expected the 1 that backs the live downstream HTLC)", c0_inbound_left)); }
+	if by_timeout {
+		// resolved by the timeout: failed back exactly then (never claimed), nothing stays pending, nobody gains or loses
+		if !payer_failed { bad.push("the payer never saw PaymentFailed although node 1's HTLC-timeout claim is buried".into()); }
+		if payer_sent { bad.push("the payer saw PaymentSent although the recipient never released the preimage".into()); }
+		if !own {
+			if !c0_open { bad.push("c0 was closed".into()); }
+			if c0_inbound_end != 0 { bad.push(format!("{} inbound HTLCs still pending on c0 at the end", c0_inbound_end)); }
+			if forwarded_ev { bad.push("node 1 generated PaymentForwarded for an HTLC that timed out".into()); }
+			if v_c0_end != Some(v_c0_start) { bad.push(format!("node 1's balance on c0 went {} → {:?} msat although the HTLC timed out on both legs", v_c0_start, v_c0_end)); }
+		}
+	} else {
+		if payer_failed && !failed_at_restart { bad.push("the payer saw PaymentFailed although the recipient collected the HTLC".into()); }
+		if !payer_sent { bad.push("the payer never saw PaymentSent although node 2's preimage claim is buried in node 1's chain".into()); }
+		if !own {
+			if !forwarded_ev { bad.push("node 1 generated no PaymentForwarded".into()); }
+			if c0_inbound_end != 0 { bad.push(format!("{} inbound HTLCs still pending on c0 at the end", c0_inbound_end)); }
+			match v_c0_end { Some(v) if v >= v_c0_start + amt_b => {}, other => bad.push(format!("node 1 paid {} msat downstream (claimed on chain by node 2) and its balance on c0 went {} → {:?} msat: not credited the upstream amount", amt_b, v_c0_start, other)) }
+		}
+	}
 	std::mem::forget(net);
-	Ok((text.clone(), if loss { Some(format!("node 1 paid {} msat downstream (claimed on chain by node 2) and received nothing upstream (the HTLC was failed back on restart, the payer saw PaymentFailed)", amt_b)) } else { None }))
+	Ok((text, if bad.is_empty() { None } else { Some(bad.join("; ")) }))
 }
 
 /// Reference run → ops for the run model (Restart.step), checked against the live node at every point.
